@@ -1911,6 +1911,8 @@ func c12Worker(args []string) int {
 				c12SortedCase(ctx, ask, r, at)
 			case "seek":
 				c12SeekCase(ctx, ask, r, at)
+			case "seekhist":
+				c12SeekHistCase(ctx, ask, r, at)
 			case "bigmerge":
 				c12BigMergeCase(ctx, r, at)
 			case "variant":
